@@ -613,6 +613,8 @@ pub struct Builder<'a> {
     pub pools: Vec<PoolKey>,
     pub batch_created: Vec<CoinID>,
     pub batch_spent: Vec<CoinID>,
+    pub batch_faucet_fees: u128,
+    pub pool_liqs: Vec<(PoolKey, u128)>,
 }
 
 impl<'a> Builder<'a> {
@@ -623,7 +625,7 @@ impl<'a> Builder<'a> {
                 pools.push(*k);
             }
         }
-        Builder { w, p, avail: w.wallet.clone(), mult: snap.fee_mult, height: snap.height, pools, batch_created: vec![], batch_spent: vec![] }
+        Builder { w, p, avail: w.wallet.clone(), mult: snap.fee_mult, height: snap.height, pools, batch_created: vec![], batch_spent: vec![], batch_faucet_fees: 0, pool_liqs: snap.pools.iter().filter(|(k, p)| k.left() != k.right() && p.liqs > 0).map(|(k, p)| (*k, p.liqs)).collect() }
     }
 
     fn dest(&self, d: u8) -> CovSpec {
@@ -809,8 +811,21 @@ impl<'a> Builder<'a> {
         let mut tx = Transaction::new(TxKind::Faucet);
         let denoms = [Denom::Mel, Denom::Sym, Denom::Erg, Denom::Mel, Denom::Sym, Denom::NewCustom];
         for op in tp.outs.iter() {
-            let d = denoms[op.denom as usize % denoms.len()];
+            let mut d = denoms[op.denom as usize % denoms.len()];
             let mut v = value_class(op.weight);
+            if self.p.hostile && op.denom % 5 == 4 && !self.pool_liqs.is_empty() {
+                // forged liquidity tokens (a faucet may name any denomination): a share of what the pool has issued,
+                // so that several withdrawals in one block can each fit and together exceed it
+                let (k, liqs) = self.pool_liqs[sel(op.adata as u16 * 257, self.pool_liqs.len())];
+                d = k.liq_token_denom();
+                v = match op.weight % 4 {
+                    0 => liqs,
+                    1 => liqs / 5 * 3,
+                    2 => liqs / 2 + 1,
+                    _ => liqs.saturating_add(1).min(MAX_COINVAL),
+                }
+                .min(MAX_COINVAL);
+            }
             let issued = self.w.issued.get(&d).copied().unwrap_or(0);
             if issued.saturating_add(v) > (1u128 << 124) {
                 v = 1000;
@@ -824,6 +839,15 @@ impl<'a> Builder<'a> {
             2 => 20_000_000_000,
             _ => 1u128 << 70,
         });
+        // one faucet in sixteen pays the largest well-formed fee (tips and fee pool near the top of the coin range)
+        if tp.fee % 16 == 15 {
+            let pending: u128 = self.batch_faucet_fees;
+            let issued = self.w.issued.get(&Denom::Mel).copied().unwrap_or(0);
+            if issued.saturating_add(pending).saturating_add(MAX_COINVAL) <= (1u128 << 124) {
+                tx.fee = CoinValue(MAX_COINVAL);
+                self.batch_faucet_fees += MAX_COINVAL;
+            }
+        }
         let valid = self.w.net != NetID::Mainnet && tx.fee.0 >= refstf::min_fee(&tx, self.mult);
         Some(Built { tx, inputs: vec![], valid, spelling: None, pool: None })
     }
@@ -1764,6 +1788,8 @@ fn apply_and_observe(
                                 let e = w.issued.entry(o.denom).or_insert(0);
                                 *e = e.saturating_add(o.value.0);
                             }
+                            let e = w.issued.entry(Denom::Mel).or_insert(0);
+                            *e = e.saturating_add(tx.fee.0);
                         }
                         for o in tx.outputs.iter() {
                             if o.denom == Denom::NewCustom {
